@@ -1,7 +1,7 @@
 SPECIFICATION TSpec
 CONSTANTS
   Ids = {1, 2, 3, 4}
-  Cfgs = {"c1", "c2", "c3", "c4", "c5", "c6", "c7", "c8", "c9", "c10", "c11", "r1", "r2", "r3", "r4", "r5", "r6", "r7", "r8"}
+  Cfgs = {"c1", "c2", "c3", "c4", "c5", "c6", "c7", "c8", "c9", "c10", "c11", "c12", "c13", "r1", "r2", "r3", "r4", "r5", "r6", "r7", "r8"}
   OwnScaleCfgs = {"c3"}
   NiceSensitive = {"c7", "c8", "c9"}
   NoOptCfgs = {"c7", "c9", "c10", "c11"}
